@@ -1,4 +1,5 @@
 import CentrifugeVerif.Proofs.MapHub
+import CentrifugeVerif.Proofs.MapHubRefine
 /-!
 # C20 — the memory map broker implements the map-state specification
 
@@ -13,7 +14,9 @@ Theorems about the executable model `Model/MapHub.lean` of `MemoryMapBroker` (`/
   offset `top + 1` and is broadcast exactly once with that offset; other channels and other keys are
   untouched;
 * T5 compare-and-swap compares the stored publication's offset and the channel epoch;
-* T6 structural invariants (`HubInv`) hold after every op sequence.
+* T6 structural invariants (`HubInv`) hold after every op sequence;
+* T7 refinement: through the abstraction `RefMap.abs` the model's step is the step of the reference map
+  `Spec/RefMap.lean` (state = fold of the unsuppressed operations), with identical outputs.
 
 Helper definitions (`chanFor`, `decideSup`, `chanView`, `ChanInv`, `HubInv`) and lemmas are in
 `Proofs/MapHub.lean`.
@@ -323,3 +326,45 @@ example :
   decide
 
 end CentrifugeVerif.MapHub
+
+/-! ## T7 — the hub model refines the reference map -/
+namespace CentrifugeVerif.C20
+open CentrifugeVerif.MapHub CentrifugeVerif.RefMap
+
+/-- **mapHub_refines_refMap**: for every hub state, every time and every supported operation (publish with any
+options, remove, clear, read-stream, single-key / position-only read-state), the implementation model's step seen
+through `abs` (forget heap, deadline table, scores, ordered flag) is the reference map's step, and result and
+broadcasts are identical.  (Paged read-state: C21 `hub_pages_concat`; the sweep: C24.) -/
+theorem mapHub_refines_refMap (cfg : Nat → RawCfg) (h : Hub) (now : Nat) (op : MOp) (hs : Supported op) :
+    abs (MapHub.step cfg h now op).1 = (RefMap.step cfg (orderedOf h) (abs h) now op).1 ∧
+    (MapHub.step cfg h now op).2 = (RefMap.step cfg (orderedOf h) (abs h) now op).2 :=
+  RefMap.mapHub_refines_refMap cfg h now op hs
+
+/-- the same over every timed op sequence, from every hub state. -/
+theorem mapHub_refines_refMap_run (cfg : Nat → RawCfg) (ops : List (Nat × MOp)) (h : Hub)
+    (hs : ∀ x ∈ ops, Supported x.2) :
+    abs (MapHub.run cfg h ops).1 = (refRun cfg h (abs h) ops).1 ∧
+    (MapHub.run cfg h ops).2 = (refRun cfg h (abs h) ops).2 :=
+  RefMap.mapHub_refines_refMap_run cfg ops h hs
+
+/-- from the initial (empty) broker the reference run starts from the empty reference map. -/
+theorem mapHub_refines_refMap_from_init (cfg : Nat → RawCfg) (ops : List (Nat × MOp))
+    (hs : ∀ x ∈ ops, Supported x.2) :
+    abs (MapHub.run cfg Hub.init ops).1 = (refRun cfg Hub.init ⟨[], [], 1⟩ ops).1 ∧
+    (MapHub.run cfg Hub.init ops).2 = (refRun cfg Hub.init ⟨[], [], 1⟩ ops).2 :=
+  RefMap.mapHub_refines_refMap_from_init cfg ops hs
+
+/-- the reference verdict is the model's decision (T1): first failing check, version -> key mode -> CAS. -/
+theorem verdict_is_check_order (cfg : Cfg) (c : Chan) (key : Key) (o : PubOpts) :
+    verdict cfg (absChan c) key o = decideSup cfg c key o := verdict_abs cfg c key o
+
+/-! a supported sequence: publish, a publish failing all three checks, single-key read, stream read, remove, clear -/
+example : ∀ x ∈ ([(0, .publish 1 [7] { data := 5, version := 3 }),
+                  (1, .publish 1 [7] { version := 2, mode := .ifNew, cas := some ⟨9, 9⟩ }),
+                  (2, .readState 1 { key := [7] }), (3, .readStream 1 { limit := -1 }),
+                  (4, .remove 1 [7] {}), (5, .clear 1)] : List (Nat × MOp)), Supported x.2 := by
+  intro x hx
+  simp only [List.mem_cons, List.mem_nil_iff, or_false] at hx
+  rcases hx with rfl | rfl | rfl | rfl | rfl | rfl <;> simp [Supported]
+
+end CentrifugeVerif.C20
